@@ -1,8 +1,34 @@
-(* C08 GraphColoring: the return of a legal episode that ends equals minus the number of distinct colours in the final state *)
-Require Import JV.Base.Prelude JV.Base.JaxIndex JV.Base.Codec JV.Base.TimeStep JV.Model.GraphColoring JV.Proofs.GraphColoring.
+(* C08 GraphColoring: for every graph (0 < n, symmetric, loop-free, n x n) and every mask-respecting in-spec episode from
+   reset that ends, the return equals minus the number of colours in use in the final state (the number of c in 0..n-1 that
+   some node has - stated without the code's unique/count_nonzero), the final colouring is complete (every node has a colour
+   in [0,n-1]) and proper, between 1 and n colours are used, and the episode has exactly n steps.  (Single reward function:
+   sparse, 0 before the end.)  The older general form (any start state, the colours given as a duplicate-free list) is kept. *)
+Require Import JV.Base.Prelude JV.Base.JaxIndex JV.Base.Codec JV.Base.TimeStep JV.Model.GraphColoring JV.Proofs.GraphColoring
+  JV.Proofs.GraphColoring_rules JV.Proofs.GraphColoring_episode JV.Proofs.GraphColoring_gen.
+Theorem C08_GraphColoring_return_from_reset n adj0 acts :
+  0 < n -> graph_wf n adj0 ->
+  let s0 := fst (init n adj0) in
+  inspec n acts -> legal_run n s0 acts -> ended n s0 acts ->
+  let sf := final n s0 acts in
+  ret (run n s0 acts) = - colours_used n (colors sf)
+  /\ adj sf = adj0
+  /\ (forall j, 0 <= j < n -> 0 <= color_of (colors sf) j < n)
+  /\ proper n adj0 (colors sf)
+  /\ 1 <= colours_used n (colors sf) <= n
+  /\ zlen (run n s0 acts) = n.
+Proof. exact (C08_return_from_reset n adj0 acts). Qed.
+Print Assumptions C08_GraphColoring_return_from_reset.
 Theorem C08_GraphColoring_return n acts s :
   legal_run n s acts -> forall sf tf, last (run n s acts) (s, mkTS MID [] []) = (sf, tf) -> st tf = LAST ->
   exists ds, NoDup ds /\ (forall x, In x ds <-> In x (colors sf) /\ 0 <= x)
              /\ ret (run n s acts) = - Z.of_nat (length ds).
 Proof. exact (C08_return n acts s). Qed.
 Print Assumptions C08_GraphColoring_return.
+Example C08_GraphColoring_nonvacuous :
+  let adj0 := gen_adj 4 [[false;false;false;false];[true;false;false;false];[false;true;false;false];[true;false;true;false]] in
+  let s0 := fst (init 4 adj0) in
+  legal_run 4 s0 [0; 1; 0; 1] /\ ended 4 s0 [0; 1; 0; 1] /\ colors (final 4 s0 [0; 1; 0; 1]) = [0; 1; 0; 1]
+  /\ map (fun p => reward (snd p)) (run 4 s0 [0; 1; 0; 1]) = [[0]; [0]; [0]; [-2]]
+  /\ ret (run 4 s0 [0; 1; 0; 1]) = -2 /\ colours_used 4 [0; 1; 0; 1] = 2
+  /\ ret (run 4 s0 [3; 1; 2; 0]) = -4 /\ colours_used 4 (colors (final 4 s0 [3; 1; 2; 0])) = 4.
+Proof. vm_compute. repeat split; try reflexivity; intuition (try discriminate; try lia). Qed.
